@@ -45,11 +45,12 @@ NoPut == [a |-> -1, e |-> 0, blk |-> -1]
 NoCommit == [keys |-> {}, line |-> 0]
 Max(a, b) == IF a > b THEN a ELSE b
 
-S0 == [cfg |-> [access |-> "flat", old |-> 0, coop |-> TRUE, minEpoch |-> 0, persistent |-> FALSE],
+S0 == [cfg |-> [access |-> "flat", policy |-> "immutable", old |-> 0, cur |-> 1, new |-> 1, coop |-> TRUE, minEpoch |-> 0, persistent |-> FALSE],
        nValid |-> <<>>,    \* <<inst, key>> -> number of valid uploads in flight or completed OK
        granted |-> <<>>,   \* key -> instance names under which a valid upload completed OK
        inflight |-> <<>>,  \* process -> [a |-> allocs at start, line |-> line of the start event, ta |-> tallocs]
        allocs |-> 0,       \* NewBlock events since the last (re)start
+       maxblk |-> 0,       \* highest block number handed out
        tallocs |-> 0,      \* NewBlock events since Reset
        relsd |-> 0,        \* blocks handed back by the block list
        pops |-> 0,         \* PopFront events
@@ -86,6 +87,12 @@ Visible(e) ==
     THEN \E i \in Get0(s.granted, e.k, {}) : IsPrefix(i, e.inst)
     ELSE \E x \in DOMAIN s.nValid : x[2] = e.k /\ s.nValid[x] > 0 /\ IsPrefix(x[1], e.inst)
 
+\* Normal rotation pops the oldest block only when a push has made the list one longer than old+current+new
+\* blocks (the mutable growth policy keeps a single "new" block), so block b can have been rotated out only if
+\* a block numbered at least b + that capacity exists.
+Capacity == s.cfg.old + s.cfg.cur + (IF s.cfg.policy = "mutable" THEN 1 ELSE s.cfg.new)
+RotationMayHaveTaken(b) == s.maxblk - b >= Capacity
+
 TInit == l = 1 /\ s = S0
 
 Reset ==
@@ -119,6 +126,11 @@ PutEnd ==
     /\ (ReadClause /\ ~Ev.valid) => Ev.res # "OK"
     \* C08: an upload written into a block that was quarantined meanwhile is not acknowledged
     /\ (On("C08") /\ Ev.res = "OK" /\ Ev.p \in DOMAIN s.wblk) => ~\E d \in s.dets : s.wblk[Ev.p] <= d.b
+    \* C08: ... while an upload into a block newer than every block with detected corruption is unaffected: it is
+    \* not failed as "written into a released block" unless normal rotation (
+    \* started) may have taken its block away
+    /\ (On("C08") /\ Ev.valid /\ Ev.res = "Internal" /\ Ev.p \in DOMAIN s.wblk /\ ~\E d \in s.dets : s.wblk[Ev.p] <= d.b)
+          => RotationMayHaveTaken(s.wblk[Ev.p])
     /\ s' = [s EXCEPT
           !.nValid = IF Ev.valid /\ Ev.res # "OK" THEN Put0(@, KeyOf(Ev), Get0(@, KeyOf(Ev), 0) - 1) ELSE @,
           !.granted = IF Ev.valid /\ Ev.res = "OK" THEN Put0(@, Ev.k, Get0(@, Ev.k, {}) \cup {Ev.inst}) ELSE @,
@@ -136,11 +148,10 @@ RetentionOK(k, op) ==
     (On("C05") /\ ~s.corrupted /\ t.a >= 0 /\ op.line > t.e) => s.allocs - t.a >= s.cfg.old + 1
 
 \* C08: "objects in newer blocks are unaffected": an acknowledged upload written into a block newer than every
-\* block in which corruption was detected keeps the retention of any fresh upload (at least old+1 further block
-\* allocations before normal rotation can evict it), whatever was quarantined meanwhile.
+\* block in which corruption was detected is not lost to the quarantine (only normal rotation may evict it).
 UnaffectedOK(k, op) ==
     LET t == Get0(s.lastPut, k, NoPut) IN
-    (On("C08") /\ t.a >= 0 /\ t.blk >= 0 /\ op.line > t.e /\ ~\E d \in s.dets : t.blk <= d.b) => s.allocs - t.a >= s.cfg.old + 1
+    (On("C08") /\ t.a >= 0 /\ t.blk >= 0 /\ op.line > t.e /\ ~\E d \in s.dets : t.blk <= d.b) => RotationMayHaveTaken(t.blk)
 
 \* C03: after the restart a key that had to survive is readable, unless normal rotation
 \* (old+1 block hand-outs since its upload started) may have evicted it.
@@ -153,6 +164,8 @@ GetEnd ==
     /\ LET op == s.inflight[Ev.p] IN
        /\ (ReadClause /\ Ev.kind = "Data") => (Ev.what = Ev.k /\ Visible(Ev))
        /\ Ev.kind = "NotFound" => (RetentionOK(KeyOf(Ev), op) /\ UnaffectedOK(KeyOf(Ev), op))
+       \* C05 "stays readable": an integrity failure or foreign bytes are as unreadable as NOT_FOUND
+       /\ ((Ev.kind = "Error" /\ Ev.what = "Internal") \/ (Ev.kind = "Data" /\ Ev.what # Ev.k)) => RetentionOK(KeyOf(Ev), op)
        /\ SurvivalOK(KeyOf(Ev), Ev.kind = "Data")
        /\ s' = [s EXCEPT
              !.touch = IF Ev.kind = "Data" THEN Put0(@, KeyOf(Ev), [a |-> op.a, e |-> l]) ELSE @,
@@ -196,6 +209,7 @@ NewBlock ==
     \* C05: repeating a touch immediately allocates nothing
     /\ (On("C05") /\ Ev.ev = "NewBlock") => ~s.idem
     /\ s' = [s EXCEPT !.blkRegion = Put0(@, Ev.blk, Ev.region),
+                      !.maxblk = Max(@, Ev.blk),
                       !.allocs = IF Ev.ev = "NewBlock" THEN @ + 1 ELSE @,
                       !.tallocs = IF Ev.ev = "NewBlock" THEN @ + 1 ELSE @]
 
